@@ -138,6 +138,23 @@ func runC13(ctx *Ctx) {
 		for _, i := range idx[:k] {
 			out = append(out, w.names[i])
 		}
+		// files that import each other across Go packages must often be generated together
+		if rapid.IntRange(0, 2).Draw(rt, "pair") == 0 {
+			pairs := [][]string{{"verif/impa.proto", "verif/impb.proto"}, {"verif/alpha/types.proto", "verif/beta/types.proto"}}
+			for _, n := range pairs[rapid.IntRange(0, len(pairs)-1).Draw(rt, "whichpair")] {
+				has, usable := false, false
+				for _, o := range out {
+					has = has || o == n
+				}
+				for _, u := range w.names {
+					usable = usable || u == n
+				}
+				if !has && usable {
+					out = append(out, n)
+				}
+			}
+			rapid.Permutation(out).Draw(rt, "order")
+		}
 		return out
 	}
 	ctx.CheckRapid("repeat", per(24, 200), func(rt *rapid.T) *Case {
